@@ -119,9 +119,12 @@ def force(binary, steps, form):
     dr = None
     try:
         dr = vlib.Driver(binary)
-        dr.ok("init", dir=d)
+        # group-by forms run with the persistent-query machinery on and primed, so that the rotations of the schedule write
+        # an agile tree (production default; the other forms never look at trees)
+        tree = form[1] in ("count_by", "sum_by")
+        dr.ok("init", dir=d, pqs=tree)
         dr.ok("hook_start")
-        return dr.ok("vis_sched", steps=steps, text=form[0], timeout=120)
+        return dr.ok("vis_sched", steps=steps, text=form[0], prime=tree, timeout=120)
     finally:
         if dr is not None:
             dr.quit()
@@ -137,13 +140,19 @@ def run(chk):
     quick = chk.tier == "quick"
     r = vlib.run_tlc("Visibility", "MC_Visibility.cfg", timeout=900, coverage=True)
     vlib.tlc_must_hold(r, "Visibility")
-    chk.add_tlc("MC_Visibility", r, "NoDup NoLoss NoInvent NeverInNeither; 4 events, 2 flushes, 2 rotations, one query")
+    chk.add_tlc("MC_Visibility", r, "NoDup NoLoss NoInvent NoDamage NoPartialTree NeverInNeither; 4 events, 2 flushes, 2 rotations, one query")
     r2 = vlib.run_tlc("Visibility", "MC_Visibility_nodedup.cfg", timeout=600)
     if "NoDup" not in r2.violated:
         raise vlib.Infra("model sensitivity lost: Visibility without de-duplication no longer violates NoDup")
     r3 = vlib.run_tlc("Visibility", "MC_Visibility_norecheck.cfg", timeout=600)
     if "NoLoss" not in r3.violated:
         raise vlib.Infra("model sensitivity lost: Visibility without the re-check no longer violates NoLoss")
+    r6 = vlib.run_tlc("Visibility", "MC_Visibility_notreeatomic.cfg", timeout=600)
+    if "NoPartialTree" not in r6.violated:
+        raise vlib.Infra("model sensitivity lost: Visibility with a non-atomic tree file no longer violates NoPartialTree")
+    r7 = vlib.run_tlc("Visibility", "MC_Visibility_notree.cfg", timeout=600)
+    vlib.tlc_must_hold(r7, "Visibility without agile trees")
+    chk.add_tlc("MC_Visibility_notree", r7, "same invariants, rotations without an agile tree")
     r4 = vlib.run_tlc("Visibility", "MC_Visibility_noreaderfallback.cfg", timeout=600)
     r5 = vlib.run_tlc("Visibility", "MC_Visibility_noreaderfallback_damage.cfg", timeout=600)
     if "NoLoss" not in r4.violated or "NoDamage" not in r5.violated:
@@ -160,19 +169,20 @@ def run(chk):
     # point at which the REAL query of that form is parked when the writer step happens (a form that never reaches a point
     # is parked at the last one it does reach, and is finished after its last one), so that every window of every form is
     # forced with every writer step.
-    order = ["q.snapU", "q.snapR", "q.check", "q.plan", "q.open", "q.fetch"]
-    park = {"records": dict(zip(order, order)), "filter": dict(zip(order, order)),
-            "count_by": {**dict(zip(order[:5], order[:5])), "q.fetch": None},
-            "sum_by": {**dict(zip(order[:5], order[:5])), "q.fetch": None},
-            "count_max": {"q.snapU": "q.snapU", "q.snapR": "q.snapR", "q.check": "q.open", "q.plan": "q.open", "q.open": "q.open", "q.fetch": None},
-            "count": {"q.snapU": "q.snapU", "q.snapR": "q.snapR", "q.check": None, "q.plan": None, "q.open": None, "q.fetch": None}}
+    order = ["q.snapU", "q.snapR", "q.tree", "q.check", "q.plan", "q.open", "q.fetch"]
+    full = {**dict(zip(order, order)), "q.tree": "q.check"}       # q.tree and q.check park at the same point
+    park = {"records": full, "filter": full,
+            "count_by": {**full, "q.fetch": None}, "sum_by": {**full, "q.fetch": None},
+            "count_max": {"q.snapU": "q.snapU", "q.snapR": "q.snapR", "q.tree": "q.open", "q.check": "q.open", "q.plan": "q.open", "q.open": "q.open",
+                          "q.fetch": None},
+            "count": {"q.snapU": "q.snapU", "q.snapR": "q.snapR"}}
 
     def klass(st, kind):
         last, out = None, set()
         for x in st:
             if x.startswith("q."):
                 last = park[kind].get(x) if x != "q.search" else None
-            elif last and x in ("flush.vis", "rot.meta", "rot.remove"):
+            elif last and x in ("flush.vis", "rot.tree", "rot.meta", "rot.remove") and (x != "rot.tree" or kind in ("count_by", "sum_by")):
                 out.add((last, x))
         return tuple(sorted(out))
     rnd = random.Random(chk.seed)
